@@ -631,7 +631,7 @@ func (l *Linter) lintReturnStatement(stmt *ast.ReturnStatement, ctx *context.Con
 	}
 	if !expectState(state, expects...) {
 		l.Error(InvalidReturnState(
-			stmt.ReturnExpression.GetMeta(), context.ScopeString(ctx.Mode()), stmt.ReturnExpression.String(), expects...,
+			stmt.ReturnExpression.GetMeta(), context.ScopeString(ctx.Mode()), state, expects...,
 		).Match(RESTART_STATEMENT_SCOPE))
 	}
 	return types.NeverType
